@@ -115,7 +115,18 @@ class Model(HoloPyObject):
 
         dummy_scatterer = fields['_dummy_scatterer']
         scatterer_parameters = read_map(maps['scatterer'], parameters)
-        scatterer = dummy_scatterer.from_parameters(scatterer_parameters)
+        if isinstance(dummy_scatterer, RigidCluster):
+            # RigidCluster.from_parameters returns the rotated and translated
+            # Spheres, which cannot be built from priors and would no longer
+            # be a RigidCluster
+            scatterer = RigidCluster(
+                dummy_scatterer.spheres.from_parameters(scatterer_parameters),
+                translation=scatterer_parameters.get(
+                    'translation', dummy_scatterer.translation),
+                rotation=scatterer_parameters.get(
+                    'rotation', dummy_scatterer.rotation))
+        else:
+            scatterer = dummy_scatterer.from_parameters(scatterer_parameters)
         theory = fields['theory'].from_parameters(
             read_map(maps['theory'], parameters))
         kwargs = {'scatterer': scatterer, 'theory': theory,
